@@ -1002,6 +1002,14 @@ func (c *Ctx) onlyMsg(m *core.Module, in ssa.Instruction, seen map[ssa.Instructi
 		if x.Op == token.ADD {
 			return follow(x)
 		}
+		// "is there a message at all": whether the text is empty does not depend on the order of its parts
+		if x.Op == token.EQL || x.Op == token.NEQ {
+			for _, operand := range []ssa.Value{x.X, x.Y} {
+				if k, isStr := core.ConstString(operand); isStr && k == "" {
+					return true
+				}
+			}
+		}
 		return false
 	case *ssa.Phi:
 		return follow(x)
